@@ -4,6 +4,8 @@
 -/
 import MotoModel.Props.C05
 import MotoModel.Props.C07
+import MotoModel.Proofs.DiskWriteRead
+import MotoModel.Props.C04
 namespace Moto.C02
 open Moto Moto.Disk
 
@@ -64,5 +66,33 @@ theorem chain_and_size_read_back (bat : List Nat) (hlen : bat.length = 160) (con
     exact key ch bat' hl last hlast
   rw [C07.size_formula bat' rec16 ch last _ hu8 hlast hs, hrec, hlen']
   exact recorded_size_is_exact content.length
+
+end Moto.C02
+
+namespace Moto.C02
+open Moto Moto.Disk
+
+/-- **C02 (what is written is what is read)** — the controller-level round trip, for every content
+    of every size (0 bytes to a full side): after a successful `writeFile` on a well-formed side,
+    the side is still well-formed, its table is the old one with the new chain linked, and reading
+    the entry that names this chain returns the content byte for byte.
+    (Proof: Proofs/DiskWriteRead.lean — distinct flat sectors, prefix-overwrite of a sector, the
+    fill loop of readFile is concatenation, chain walk over the linked statuses.) -/
+theorem write_then_read (sd sd' : Side) (bat : List Nat) (content : Bytes) (name ext : Str) (kind flag : Nat)
+    (hw : C11.WFSide sd) (hb : getBat sd = .ok bat)
+    (h40 : isFree (bat.getD 40 0) = false) (h41 : isFree (bat.getD 41 0) = false)
+    (hres : writeFile sd content name ext kind flag = .ok sd') :
+    C11.WFSide sd'
+    ∧ getBat sd' = .ok (linkChain bat (chosen bat (reqBlocks content.length)) (lastSectorsOf content.length))
+    ∧ ∀ e : Entry, e.blocks = chosen bat (reqBlocks content.length) → e.lastBytes = lastBytesOf content.length →
+        readFile sd' (linkChain bat (chosen bat (reqBlocks content.length)) (lastSectorsOf content.length)) e = content := by
+  obtain ⟨h1, h2, _, h4⟩ := writeFile_read_back sd sd' bat content name ext kind flag hw hb h40 h41 hres
+  exact ⟨h1, h2, h4⟩
+
+/-- the hypotheses are met by the side `--create` starts from -/
+example : C11.WFSide (initFileSystem blankSide) := C04.init_wf blankSide (by
+  constructor
+  · decide +kernel
+  · intro s hs; simp [blankSide] at hs; rw [hs.2]; decide +kernel)
 
 end Moto.C02
